@@ -444,6 +444,9 @@ func c20Stacks(c *Ctx) {
 			}
 			script.Chunks = append(script.Chunks, sz)
 		}
+		if script.Kind == "plain" && len(script.Chunks) > 0 && r.IntN(5) == 0 {
+			script.Chunks = append(script.Chunks, 0) // the handler ends on a zero-length write (io.WriteString(w, ""))
+		}
 		if script.Kind == "flush" && len(script.Chunks) < 2 {
 			script.Chunks = []int{100 + r.IntN(2000), 50 + r.IntN(500)}
 		}
